@@ -163,6 +163,12 @@ def registration():
     steps = START + [['call', 'A', 'run'], settle(0.4), ['register', 'P3'], ['child', 'return'], settle(0.4), ['child_reset'],
                      ['call', 'A', 'reset'], settle(), ['unregister', 'P3']] + one_run() + [['sample']]
     out.append(S(steps, dict(family='registration', case='mid-run')))
+    # a run that fails to start: the session context of a plugin raises before any child is spawned; the machine still
+    # goes through finished, then an ordinary run after the plugin is gone
+    for api in ('run', 'run_session'):
+        steps = START + [['register_failing', 'F1', 'run_ctx'], ['call', 'A', api], settle(0.4), ['call', 'A', 'result'], settle(),
+                         ['unregister', 'F1'], ['call', 'A', 'reset'], settle()] + one_run() + [['sample']]
+        out.append(S(steps, dict(family='registration', case='run-fails-to-start:' + api, expect_complete=False)))
     return out
 
 
@@ -240,6 +246,13 @@ def endings():
         steps = START + [['call', 'W', 'run_session'], settle(0.4), ['call', 'A', sig], ['await', 'W', 8.0], settle(),
                          ['call', 'A', 'result'], settle(), ['sample']]
         out.append(S(steps, dict(family='ending', outcome=sig, point='prompt-open', expect_result=exp), config={'answer': None}))
+    # a signal that arrives after the script has returned, while the worker is still draining its event queue
+    # (the relay is held in a hook of the main process, so the queue cannot empty)
+    for sig in ('interrupt', 'terminate'):
+        steps = START + [['hold', 'on_end_prompt'], ['call', 'W', 'run_session'], settle(0.4), ['child', 'return'], ['sleep', 0.8],
+                         ['call', 'A', sig], ['sleep', 0.6], ['release_all'], ['unhold', 'on_end_prompt'], ['await', 'W', 10.0], settle(),
+                         ['call', 'A', 'result'], settle(), ['sample']]
+        out.append(S(steps, dict(family='ending', outcome=sig, point='draining')))
     return out
 
 
